@@ -115,8 +115,46 @@ def judgeGateway (prop : String) (st : DState) (fields : List String) (impl : Op
     | _, _ => "ok"
   | _ => "ok"
 
+/-- C15: gas service custody -/
+def judgeGas (st : DState) (fields : List String) (impl : Option Outcome) : String :=
+  let C := crypto st
+  let w := st.world
+  match fields with
+  | ["tx", src, dst, func, egld, esdt, args] =>
+    match ofHex src, ofHex dst, egld.toNat?, parseEsdtB esdt, parseArgs args with
+    | some src, some dst, some egld, some esdt, some args =>
+      if w.kind dst != some .gasService then "ok" else
+      if !implOk impl then "ok" else
+      let evs := (implEvents impl).filter (·.addr == dst)
+      -- what the service's own rules allow, evaluated on the pre-state with the payment credited
+      match World.pay w src dst egld esdt with
+      | none => "VIOLATION:payment-accepted-without-funds"
+      | some w1 =>
+        match GasService.call C w.gs ⟨src, w.owner dst, egld, esdt, World.balanceOf w1 dst⟩ func args with
+        | .error _ =>
+          if func == "collectFees" || func == "refund" then
+            (if src != w.gs.collector then "VIOLATION:outflow-not-requested-by-collector"
+             else "VIOLATION:outflow-outside-the-rules")
+          else if func == "setGasCollector" then "VIOLATION:collector-replaced-by-stranger"
+          else "VIOLATION:payment-accepted-against-the-rules"
+        | .ok out =>
+          let expected := World.stamp dst out.events
+          if evs != expected then "VIOLATION:event-does-not-match-receipt" else "ok"
+    | _, _, _, _, _ => "ok"
+  | ["bal", a, tok] =>
+    match ofHex a, impl with
+    | some a, some (.okNat n) =>
+      let acc := w.accts a
+      let m := if tok == "EGLD" then acc.egld else acc.esdt (strBytes tok)
+      if n == m then "ok"
+      else if w.kind a == some .gasService then "VIOLATION:service-balance-not-receipts-minus-outflows"
+      else "VIOLATION:account-balance-not-conserved"
+    | _, _ => "ok"
+  | _ => "ok"
+
 def judge (prop : String) (st : DState) (fields : List String) (impl : Option Outcome) : String :=
   match prop with
+  | "C15" => judgeGas st fields impl
   | "C01" | "C02" | "C03" => judgeGateway prop st fields impl
   | _ => "ok"
 
